@@ -221,6 +221,74 @@ theorem poly_reproduction (t : List ℝ) (K : Nat) (H : RightEnd t K) (he : EndK
     exact hsolve i hi'
   · cases h
 
+/-- Marsden's coefficients solve the collocation system of polynomial data -/
+theorem marsden_solves (t : List ℝ) (K : Nat) (H : RightEnd t K) (he : EndKnots t K)
+    (p : ℝ[X]) (hp : p.natDegree < K) (tau : List ℝ) (l r : Nat)
+    (hlen : tau.length = t.length - K)
+    (htau : ∀ j, j < tau.length → knot t 0 ≤ tau.getD j 0 ∧ tau.getD j 0 ≤ knot t (t.length - 1))
+    (y : List ℝ)
+    (hy : ∀ j, j < tau.length → y.getD j 0 = (derivative^[rowOrder tau.length l r j] p).eval (tau.getD j 0)) :
+    Sol (t.length - K) ⟨bsplMatrix K t (t.length - K) tau l r, fun i => y.getD i 0⟩ (marsdenCoef t K p) := by
+  intro j hj
+  unfold rowDot
+  simp only [bsplMatrix_row]
+  have hjt : j < tau.length := by omega
+  have := poly_spline_derivs t K H he p hp (rowOrder tau.length l r j) (tau.getD j 0)
+    (htau j hjt).1 (htau j hjt).2
+  unfold splineFn at this
+  rw [fdot_real_sum] at this
+  rw [this]
+  exact (hy j hjt).symm
+
+/-- the magnitude comparison of `pivots_good_of_unique` is the comparison of the float code path -/
+theorem geR_eq_absGeK : geR = absGeK := by
+  funext x y
+  have habs : ∀ t : ℝ, absS t = |t| := by
+    intro t
+    unfold absS
+    by_cases h : t < 0
+    · have : Transc.ltb t 0 = true := decide_eq_true h
+      rw [if_pos this, abs_of_neg h]
+    · have : Transc.ltb t 0 = false := decide_eq_false h
+      rw [this]; simp only [Bool.false_eq_true, if_false]
+      exact (abs_of_nonneg (not_lt.mp h)).symm
+  show (!Transc.ltb (absS x) (absS y)) = absGeK x y
+  rw [habs, habs]
+  unfold absGeK
+  show (!decide (|x| < |y|)) = decide (|y| ≤ |x|)
+  by_cases h : |x| < |y|
+  · simp [h, not_le.mpr h]
+  · simp [h, not_lt.mp h]
+
+/-- POLYNOMIAL REPRODUCTION FROM UNIQUENESS ALONE: if the interpolation problem (the collocation system) has AT
+MOST ONE solution — what the Schoenberg–Whitney conditions guarantee — then no pivot is zero (a solution exists:
+Marsden's), and the solved spline and all its derivatives equal the polynomial's. -/
+theorem poly_reproduction_unique (t : List ℝ) (K : Nat) (H : RightEnd t K) (he : EndKnots t K)
+    (p : ℝ[X]) (hp : p.natDegree < K) (tau : List ℝ) (l r : Nat)
+    (htau : ∀ j, j < tau.length → knot t 0 ≤ tau.getD j 0 ∧ tau.getD j 0 ≤ knot t (t.length - 1))
+    (y : List ℝ)
+    (hy : ∀ j, j < tau.length → y.getD j 0 = (derivative^[rowOrder tau.length l r j] p).eval (tau.getD j 0))
+    (huniq : ∀ a b : Nat → ℝ,
+      Sol (t.length - K) ⟨bsplMatrix K t (t.length - K) tau l r, fun i => y.getD i 0⟩ a →
+      Sol (t.length - K) ⟨bsplMatrix K t (t.length - K) tau l r, fun i => y.getD i 0⟩ b →
+      ∀ c, c < t.length - K → a c = b c)
+    (s' : PPSpline ℝ ℝ) (h : (⟨K, t, none⟩ : PPSpline ℝ ℝ).csolve tau y l r false = some s') :
+    ∀ (x : ℝ), knot t 0 ≤ x → x ≤ knot t (t.length - 1) → ∀ m,
+      s'.ppdnev x m = some ((derivative^[m] p).eval x) := by
+  have hlen : tau.length = t.length - K := by
+    rw [csolve_square] at h
+    split at h
+    · rename_i hc; exact hc.1
+    · cases h
+  have hsol := marsden_solves t K H he p hp tau l r hlen htau y hy
+  have hpiv : PivotsGood absGeK (t.length - K) (List.range (t.length - K))
+      ⟨bsplMatrix K t (t.length - K) tau l r, fun i => y.getD i 0⟩ := by
+    rw [List.range_eq_range']
+    exact pivots_good_of_unique (t.length - K) (t.length - K) 0 _ (by omega)
+      (fun r c hc _ _ => by omega) (fun i hi => by omega) ⟨_, hsol⟩ huniq
+  rw [← geR_eq_absGeK] at hpiv
+  exact poly_reproduction t K H he p hp tau l r htau y hy hpiv s' h
+
 /-- the least-squares solve, spelled out: the normal equations `AᵀA c = Aᵀy` over `rows = tau.length` rows -/
 theorem csolve_lsq (k : Nat) (t tau : List ℝ) (y : List ℝ) (l r : Nat) :
     (⟨k, t, none⟩ : PPSpline ℝ ℝ).csolve tau y l r true =
